@@ -145,12 +145,18 @@ def check(prop, tier, replay=None):
     hs, res = enumerate_histories("Session.cfg")
     run.add_tlc(res)
     run.notes["histories_enumerated_by_tlc"] = len(hs)
+    # histories every run replays whatever the sample: schedule() again / build first, then reports
+    must = []
+    for x in ("A", "B", "C"):
+        must += [[["parse", x], ["schedule", x], ["report", x]], [["parse", x], ["schedule", x], ["schedule", x], ["report", x]],
+                 [["parse_only", x], ["schedule", x], ["report", x]], [["parse", x], ["report", x], ["schedule", x], ["report", x]],
+                 [["cli", x], ["parse", x], ["report", x]]]
     if tier == "quick":
-        hs = rng.sample(hs, 500)
+        hs = must + rng.sample(hs, 480)
     else:
         hs5, res5 = enumerate_histories("Session5.cfg")
         run.add_tlc(res5)
-        hs = hs + rng.sample(hs5, 6000)
+        hs = must + hs + rng.sample(hs5, 6000)
     texts = make_texts(rng)
     if replay:
         d = json.load(open(replay))
